@@ -55,9 +55,9 @@ Proof.
   destruct n as [|n]; [lia|]. destruct i as [|i]; [reflexivity|]. cbn [firstn nth_error]. apply IH. lia.
 Qed.
 
-Lemma skipn_some {X} (l : list X) (n : nat) (x : X) : nth_error l n = Some x -> skipn n l = x :: skipn (S n) l.
+Lemma skipn_some {X} (l : list X) (n : nat) (x : X) : nth_error l n = Some x -> skipn n l = x :: skipn (n + 1) l.
 Proof.
-  revert n. induction l as [|y l IH]; intros n H; [destruct n; discriminate|].
+  rewrite Nat.add_1_r. revert n. induction l as [|y l IH]; intros n H; [destruct n; discriminate|].
   destruct n as [|n]; [inversion H; reflexivity|]. cbn [nth_error] in H. cbn [skipn]. rewrite (IH n H). reflexivity.
 Qed.
 
@@ -233,6 +233,10 @@ Ltac list_step :=
 
 Ltac nth_facts :=
   repeat match goal with
+  | H : context [length (skipn _ _)] |- _ => rewrite skipn_length in H
+  | H : context [length (firstn _ _)] |- _ => rewrite firstn_length in H
+  end;
+  repeat match goal with
   | H : nth_error ?l ?n = None |- _ => apply nth_error_None in H
   | H : nth_error ?l ?n = Some ?x |- _ =>
     let H' := fresh in
@@ -246,10 +250,15 @@ Ltac use_facts :=
   end.
 
 Ltac sym_step :=
-  cbn; znat; rewrite ?py_index_nat, ?py_slice_upto, ?py_slice_from; norm_nat; list_step; norm_nat; use_facts.
+  cbn; unfold assign_star; cbn; znat; rewrite ?py_index_nat, ?py_slice_upto, ?py_slice_from; norm_nat; list_step; norm_nat; use_facts.
 
 Ltac split_case :=
   match goal with
+  | H : nth_error ?l ?n = Some _ |- context [match skipn ?n ?l with _ => _ end] => rewrite !(skipn_some _ _ _ H); norm_nat
+  | H : nth_error ?l ?n = None |- context [match skipn ?n ?l with _ => _ end] => rewrite !(skipn_none _ _ H)
+  | |- context [match skipn ?n ?l with _ => _ end] =>
+    let H := fresh "Hsk" in
+    destruct (nth_error l n) eqn:H; [rewrite !(skipn_some _ _ _ H); norm_nat|rewrite !(skipn_none _ _ H)]
   | |- context [match nth_error ?l ?n with _ => _ end] => destruct (nth_error l n) eqn:?
   | |- context [(?a >=? ?b)%Z] => destruct (Z.geb_spec a b)
   | |- context [(?a >? ?b)%Z] => destruct (Z.gtb_spec a b)
@@ -258,9 +267,6 @@ Ltac split_case :=
   | |- context [(?a =? ?b)%Z] => destruct (Z.eqb_spec a b)
   | |- context [(?a <? ?b)%nat] => destruct (Nat.ltb_spec a b)
   | |- context [(?a <=? ?b)%nat] => destruct (Nat.leb_spec a b)
-  | |- context [match skipn ?n ?l with _ => _ end] =>
-    let H := fresh "Hsk" in
-    destruct (nth_error l n) eqn:H; [rewrite !(skipn_some _ _ _ H)|rewrite !(skipn_none _ _ H)]
   | |- context [is_empty ?t] => destruct (is_empty t) eqn:?
   end.
 
